@@ -167,7 +167,7 @@ def run(ctx, boost=1):
     # 4. two real threads: fill vs write+commit+un-pin+evict (F9, fixed), fill vs pinned write, set fetch vs insert/remove (F50, fixed):
     #    all must run clean; a stale read is a violation
     d = os.path.join(ctx.work, "conc")
-    rc, log = vlib.sh([binp, "--stale-fill", "--fill-vs-write", "--set-fill-vs-insert", "--n", "0", "--out", d], timeout=600)
+    rc, log = vlib.sh([binp, "--stale-fill", "--fill-vs-write", "--set-fill-vs-insert", "--scan-vs-flush", "--n", "0", "--out", d], timeout=600)
     if rc == 0:
         rep = json.load(open(os.path.join(d, "report.json")))
         res.oracle_failures += rep["oracle_failures"]
